@@ -71,7 +71,7 @@ var methodOwners = map[string][]string{
 	"CreatePermission": {"C07", "C01"},
 	"ChannelBind":      {"C08", "C07", "C01"},
 	"Binding":          {"C19"},
-	"Connect":          {"C16"},
+	"Connect":          {"C16", "C01"},
 	"ConnectionBind":   {"C16"},
 }
 
@@ -98,6 +98,9 @@ func OwnedBy(m Mismatch, a map[string]any, prop string) bool {
 		}
 		if prop == "C02" && (m.Kind == "tcp.inbound+" || m.Kind == "tcp.attempt~") {
 			return true
+		}
+		if name, _ := a["a"].(string); prop == "C01" && name == "Connect" && (m.Kind == "tcp.conn+" || m.Kind == "tcp.extra") {
+			return true // a connection toward a peer the spec says is refused
 		}
 		if prop == "C15" && (m.Kind == "tcp.close-" || m.Kind == "tcp.conn+") {
 			return true
